@@ -58,11 +58,16 @@ def main():
         selftest.seed_cache(root)
         env2 = dict(os.environ, VERIF_REPO=root, VERIF_EVIDENCE_DIR=os.path.join(base, "evidence"))
         caught = {}
+        undecided = {}
         for p in props:
             r = subprocess.run([os.path.join(VERIF, "bin", "check"), p], env=env2, stdout=subprocess.PIPE, stderr=subprocess.STDOUT, text=True)
             if r.returncode != 0:
-                caught[p] = {"rc": r.returncode, "keys": [l.strip()[:260] for l in r.stdout.splitlines() if " | " in l][:3]}
+                caught[p] = {"rc": r.returncode, "keys": [l.strip()[:260] for l in r.stdout.splitlines() if " | " in l and not l.startswith("UNDECIDED")][:3]}
+            und = [l.strip()[:200] for l in r.stdout.splitlines() if l.startswith("UNDECIDED")]
+            if und:
+                undecided[p] = und[:3]
         out["caught_by"] = caught
+        out["undecided"] = undecided
     finally:
         selftest.drop_cache(root)
         shutil.rmtree(base, ignore_errors=True)
